@@ -367,6 +367,28 @@ verify_file(const char *when)
                 if (na != h.nattrs)
                     viol("content:vdata-nattrs", "%s: Vdata (1962,%u): library reports %d attributes, the header lists %d", when, d->ref, (int)na, h.nattrs);
             }
+            /* where each attribute of the Vdata and of its fields is said to be stored: exactly the bytes of its value */
+            for (int fi = -1; fi < h.nfields; fi++) {
+                int32 findex = fi < 0 ? _HDF_VDATA : fi;
+                int   nfa    = VSfnattrs(vs, findex);
+                for (int a = 0; a < nfa; a++) {
+                    char  an[FIELDNAMELENMAX + 1];
+                    int32 ant = 0, acnt = 0, asz = 0, aoff = -1, alen = -1;
+                    if (VSattrinfo(vs, findex, a, an, &ant, &acnt, &asz) == FAIL)
+                        continue;
+                    int    esz = DFKNTsize(ant | DFNT_NATIVE);
+                    uint8 *av  = calloc(1, (size_t)(acnt * esz) + 8);
+                    if (VSgetattr(vs, findex, a, av) != FAIL) {
+                        int rc = VSgetattdatainfo(vs, findex, a, &aoff, &alen);
+                        swap_to_be(av, (long)acnt * esz, esz);
+                        if (rc != 1 || aoff < 0 || alen != acnt * esz || aoff + alen > fsize || memcmp(bytes + aoff, av, (size_t)alen))
+                            viol("datainfo:attribute-location", "%s: VSgetattdatainfo(Vdata (1962,%u), %s, attribute %d '%s') returns %d, offset %d length %d: not where the %d bytes of its value are stored",
+                                 when, d->ref, fi < 0 ? "the Vdata itself" : h.fname[fi], a, an, rc, (int)aoff, (int)alen, (int)(acnt * esz));
+                        mc_count("attribute_locations_checked", 1);
+                    }
+                    free(av);
+                }
+            }
             VSdetach(vs);
             mc_count("vdatas_compared", 1);
         }
@@ -393,6 +415,23 @@ verify_file(const char *when)
             if (bad)
                 viol("content:vgroup", "%s: Vgroup (1965,%u): library says %d members name='%s' class='%s'; file holds %d members name='%s' class='%s' (or member lists differ)", when,
                              d->ref, (int)n, nm, cl, g.nvelt, g.name, g.cls);
+            for (int a = 0; a < Vnattrs(vg); a++) {
+                char  an[H4_MAX_NC_NAME + 1];
+                int32 ant = 0, acnt = 0, asz = 0, aoff = -1, alen = -1;
+                if (Vattrinfo(vg, a, an, &ant, &acnt, &asz) == FAIL)
+                    continue;
+                int    esz = DFKNTsize(ant | DFNT_NATIVE);
+                uint8 *av  = calloc(1, (size_t)(acnt * esz) + 8);
+                if (Vgetattr(vg, a, av) != FAIL) {
+                    int rc = Vgetattdatainfo(vg, a, &aoff, &alen);
+                    swap_to_be(av, (long)acnt * esz, esz);
+                    if (rc != 1 || aoff < 0 || alen != acnt * esz || aoff + alen > fsize || memcmp(bytes + aoff, av, (size_t)alen))
+                        viol("datainfo:attribute-location", "%s: Vgetattdatainfo(Vgroup (1965,%u), attribute %d '%s') returns %d, offset %d length %d: not where the %d bytes of its value are stored", when,
+                             d->ref, a, an, rc, (int)aoff, (int)alen, (int)(acnt * esz));
+                    mc_count("attribute_locations_checked", 1);
+                }
+                free(av);
+            }
             if (Vnattrs(vg) != g.nattrs)
                 viol("content:vgroup-nattrs", "%s: Vgroup (1965,%u): library reports %d attributes, the record lists %d", when, d->ref, (int)Vnattrs(vg), g.nattrs);
             free(tg);
@@ -864,8 +903,10 @@ apply(const mc_op *op)
             }
             if (a0) {
                 int32 av = 4 + g_nops;
+                int32 fv[2] = {1000 + g_nops, -7};
                 VSsetattr(vs, _HDF_VDATA, "va", DFNT_INT32, 1, &av);
-                VSsetattr(vs, 1, "fa", DFNT_INT32, 1, &av);
+                VSsetattr(vs, 1, "fa", DFNT_INT32, 1, &fv[0]); /* (values differ from attribute to attribute) */
+                VSsetattr(vs, 2, "fb", DFNT_INT32, 2, fv);
             }
             g_vsref[g_nvs++] = VSQueryref(vs);
             if (VSdetach(vs) == FAIL)
